@@ -44,8 +44,9 @@ func isDigit(ch int) bool {
 }
 
 type Scanner struct {
-	Pos    ast.Position
-	reader *bufio.Reader
+	Pos     ast.Position
+	reader  *bufio.Reader
+	readErr error
 }
 
 func NewScanner(reader io.Reader, source string) *Scanner {
@@ -63,9 +64,27 @@ func (sc *Scanner) Error(tok string, msg string) *Error { return &Error{sc.Pos, 
 
 func (sc *Scanner) TokenError(tok ast.Token, msg string) *Error { return &Error{tok.Pos, msg, tok.Str} }
 
+// ReadError is what Parse returns when the reader fails with an error other than io.EOF.
+type ReadError struct {
+	Source string
+	Err    error
+}
+
+func (e *ReadError) Error() string { return fmt.Sprintf("%v: %v", e.Source, e.Err) }
+
+func (e *ReadError) Unwrap() error { return e.Err }
+
+// readNext returns the next byte or EOF. A reader error other than io.EOF ends the input as well:
+// it is kept in readErr (and stays: the reader is not asked again) and Parse reports it.
 func (sc *Scanner) readNext() int {
+	if sc.readErr != nil {
+		return EOF
+	}
 	ch, err := sc.reader.ReadByte()
-	if err == io.EOF {
+	if err != nil {
+		if err != io.EOF {
+			sc.readErr = err
+		}
 		return EOF
 	}
 	return int(ch)
@@ -508,6 +527,9 @@ func Parse(reader io.Reader, name string) (chunk []ast.Stmt, err error) {
 	defer func() {
 		if e := recover(); e != nil {
 			err, _ = e.(error)
+		}
+		if rerr := lexer.scanner.readErr; rerr != nil {
+			chunk, err = nil, &ReadError{name, rerr}
 		}
 	}()
 	yyParse(lexer)
